@@ -480,6 +480,24 @@ def _layer_heads(dec: reader.Decoded):
     return out
 
 
+def _paren_opens_inline(dec: reader.Decoded):
+    """The parenthesis directly around the target's let chain: True if its content starts on the line of `(`,
+    False if on a later line, None without such a parenthesis."""
+    par = None
+    for kind, node in reversed(dec.shape.wrappers):
+        if kind == "let":
+            continue
+        if kind == "paren":
+            par = node
+        break
+    if par is None:
+        return None
+    kids = [c for c in par.children if c.type not in ("(", ")")]
+    if not kids:
+        return None
+    return kids[0].start_point[0] == par.start_point[0]
+
+
 def _gap_comments(dec: reader.Decoded):
     """Comments outside every `let … in` head and outside the target set's braces, in document order:
     header, lambda head, between the layers, between the innermost `in` and the body, after the body."""
@@ -559,7 +577,12 @@ def oracle_c09(steps: list[Step], counters: dict | None = None) -> list[Violatio
         if (kind == "drop_layer" and st.dec_before.shape.outer_kinds()[-2:] == ["call", "paren"]
                 and st.dec_out.shape.outer_kinds()[-1:] == ["call"] and tokens_same):
             dedented = True
-        if canonical and body_b != body_a and not (reindented and body_a == shifted) and not dedented:
+        # a let that sat on the line of `(` (non-RFC) was pruned: the library opens the parenthesis on a new line
+        # and indents what is inside; only the indentation of the body may differ then
+        reopened = kind == "drop_layer" and _paren_opens_inline(st.dec_before) is True and _paren_opens_inline(st.dec_out) is False and tokens_same
+        if reopened:
+            bump("probe:paren_reopened")
+        if canonical and body_b != body_a and not (reindented and body_a == shifted) and not dedented and not reopened:
             out.append(Violation("C09.body_changed", "attribute set body changed by a scoped edit: %r -> %r" % (body_b[-120:], body_a[-120:]), st.i, f))
             continue
         if st.dec_before.doc.token_texts(tb) != st.dec_out.doc.token_texts(ta):
@@ -576,7 +599,7 @@ def oracle_c09(steps: list[Step], counters: dict | None = None) -> list[Violatio
         else:
             pairs = [(b, a) for k, (b, a) in enumerate(zip(hb, ha)) if k != d]
         for (b_head, b_toks), (a_head, a_toks) in pairs:
-            if b_toks != a_toks or (canonical and b_head != a_head):
+            if b_toks != a_toks or (canonical and not reopened and b_head != a_head):
                 out.append(Violation("C09.other_layer_changed", "a let layer that was not addressed changed: %r -> %r" % (b_head[-120:], a_head[-120:]), st.i, f))
                 break
         else:
